@@ -49,13 +49,18 @@ def run(ctx):
                 "(TLC) enumerates documents: 1-3 pages x sizes x rotations x content programs of the C21 vocabulary x information "
                 "strings over hostile classes (delimiters, backslash, CR/LF, NUL, Latin-1, PDFDoc-only, CJK, astral, BOM look-alikes, "
                 "300 characters) x every writer configuration.  The library's strict parser must open each file without entering "
-                "recovery (hook) and read every in-use object as the value the reference reader resolves.  Non-trivial = every "
-                "document; distinct by hash.")
+                "recovery (hook) and read every in-use object as the value the reference reader resolves.  Interactive documents "
+                "(MCDoc.DocX): annotations of 14 kinds in every position of a page's list and form fields of 6 kinds (FormManager) "
+                "with hostile partial names, values and export names, widgets of one field on one or two pages; module Interactive "
+                "is the reference reading of 12.5 / 12.7: each page's /Annots lists exactly the authored annotations in order with "
+                "the authored subtype, rectangle and decoded text entries, /AcroForm /Fields lists each authored field once "
+                "under its decoded name with the authored type, value and kind flags, every widget names its field as /Parent.  "
+                "Non-trivial = every document; distinct by hash.")
     ctx.assumptions = ["zlib inflate of object-stream / cross-reference-stream payloads is the python primitive",
                        "the configuration (object streams, cross-reference stream, uncompressed) is not generated: its cross-reference stream alone is 6 MB because object streams are numbered from 1 000 000",
-                       "documents are authored through Document/Page/GraphicsContext/TextContext only (no images, fonts, forms, annotations, encryption: those are C24, C13, C10, C05)"]
+                       "documents are authored through Document/Page/GraphicsContext/TextContext, the annotation builders and FormManager (no embedded fonts, large images or encryption here: those are C13, C24, C05); file-attachment annotations are left out (the builder is a documented stub that drops the file data), link annotations to pages are left out (the API takes an object reference the caller cannot know)"]
     of = generate_docs(ctx, thorough)
-    tp = run_docs(ctx, of, ("chk_file", "chk_lib"))
+    tp = run_docs(ctx, of, ("chk_file", "chk_lib", "chk_interactive"))
     ctx.exhaustive = False
     vlib.validate_cases(ctx, "syntax", "FileTrace", tp, "file", describe=describe, timeout=6000, marker="file")
     cases = vlib.split_cases(vlib.read_ndjson(tp), marker="file")
@@ -114,6 +119,48 @@ def run(ctx):
                 return True
         return False
 
+    def annot_text(evs):
+        for e in evs:
+            if e["ev"] == "file" and e["built"]:
+                for pg in e["prog"]["pages"]:
+                    for a in pg.get("annots", []):
+                        if a.get("text"):
+                            a["text"][0] += 1
+                            return True
+        return False
+
+    def annot_order(evs):
+        for e in evs:
+            if e["ev"] == "file" and e["built"]:
+                for pg in e["prog"]["pages"]:
+                    an = pg.get("annots", [])
+                    for i in range(len(an) - 1):
+                        if an[i]["k"] != an[i + 1]["k"]:
+                            an[i], an[i + 1] = an[i + 1], an[i]
+                            return True
+        return False
+
+    def field_name(evs):
+        for e in evs:
+            if e["ev"] == "file" and e["built"] and e["prog"].get("fields"):
+                e["prog"]["fields"][0]["name"][0] += 1
+                return True
+        return False
+
+    def widget_field(evs):
+        for e in evs:
+            if e["ev"] == "file" and e["built"] and len(e["prog"].get("fields", [])) >= 2:
+                for pg in e["prog"]["pages"]:
+                    for a in pg.get("annots", []):
+                        if a["k"] == "widget":
+                            a["field"] = 1 if a["field"] != 1 else 2
+                            return True
+        return False
+
+    vlib.expect_reject(ctx, "syntax", "FileTrace", tp, annot_text, "one character of an authored annotation text changed", marker="file")
+    vlib.expect_reject(ctx, "syntax", "FileTrace", tp, annot_order, "two authored annotations of a page swapped", marker="file")
+    vlib.expect_reject(ctx, "syntax", "FileTrace", tp, field_name, "one character of an authored field name changed", marker="file")
+    vlib.expect_reject(ctx, "syntax", "FileTrace", tp, widget_field, "an authored widget attributed to another field", marker="file")
     vlib.expect_reject(ctx, "syntax", "FileTrace", tp, shift_offset, "one cross-reference offset off by one", marker="file")
     vlib.expect_reject(ctx, "syntax", "FileTrace", tp, wrong_length, "a stream /Length off by one", marker="file")
     vlib.expect_reject(ctx, "syntax", "FileTrace", tp, lib_differs, "a value in the library's reading of an object replaced by null", marker="file")
